@@ -1,14 +1,21 @@
 package engines
 
 import (
+	"bytes"
 	"encoding/json"
 	"fmt"
 	"reflect"
+	"strings"
 
 	"google.golang.org/protobuf/encoding/protojson"
 	"google.golang.org/protobuf/encoding/prototext"
 	"google.golang.org/protobuf/proto"
+	"google.golang.org/protobuf/reflect/protopath"
+	"google.golang.org/protobuf/reflect/protorange"
 	"google.golang.org/protobuf/reflect/protoreflect"
+	"google.golang.org/protobuf/reflect/protoregistry"
+	"google.golang.org/protobuf/types/dynamicpb"
+	"google.golang.org/protobuf/types/known/anypb"
 	"pgregory.net/rapid"
 
 	"verif/kit/model"
@@ -29,15 +36,15 @@ func runC10(ctx *Ctx) {
 	for _, t := range ctx.types() {
 		t := t
 		ctx.CheckRapid(string(t.Name), n, func(rt *rapid.T) *Case {
-			sub := rapid.SampledFrom([]string{"equal", "equal", "clone", "merge", "merge", "selfmerge", "sharereset", "reset", "checkinit", "json", "json", "text", "text"}).Draw(rt, "sub")
-			unknown := rapid.IntRange(0, 2).Draw(rt, "unknown") == 0 && sub != "json" && sub != "text"
-			canonical := sub == "json" || sub == "text" || rapid.Bool().Draw(rt, "canonical")
+			sub := rapid.SampledFrom([]string{"equal", "equal", "clone", "merge", "merge", "selfmerge", "sharereset", "reset", "checkinit", "json", "json", "text", "text", "cross", "cross", "walk", "jsonany", "hybrid"}).Draw(rt, "sub")
+			unknown := rapid.IntRange(0, 2).Draw(rt, "unknown") == 0 && sub != "json" && sub != "text" && sub != "jsonany"
+			canonical := sub == "json" || sub == "text" || sub == "jsonany" || rapid.Bool().Draw(rt, "canonical")
 			b, d := ctx.genTypeStream(rt, t, unknown, canonical)
 			if d == nil {
 				return nil
 			}
 			c := &Case{Sub: sub, Type: string(t.Name), Bytes: hexs(b), Args: map[string]string{}}
-			if sub == "equal" || sub == "merge" || sub == "sharereset" {
+			if sub == "equal" || sub == "merge" || sub == "sharereset" || sub == "cross" {
 				switch rapid.IntRange(0, 2).Draw(rt, "wclass") {
 				case 0:
 					c.Bytes2 = c.Bytes
@@ -148,6 +155,37 @@ func independentParses(what string, first, second proto.Message) error {
 	return nil
 }
 
+// dynResolver resolves every message name to a dynamicpb type over the
+// registered descriptor (extensions: none).
+type dynResolver struct{}
+
+func (dynResolver) FindMessageByName(n protoreflect.FullName) (protoreflect.MessageType, error) {
+	d, err := protoregistry.GlobalFiles.FindDescriptorByName(n)
+	if err != nil {
+		return nil, err
+	}
+	md, ok := d.(protoreflect.MessageDescriptor)
+	if !ok {
+		return nil, protoregistry.NotFound
+	}
+	return dynamicpb.NewMessageType(md), nil
+}
+
+func (r dynResolver) FindMessageByURL(url string) (protoreflect.MessageType, error) {
+	if i := strings.LastIndexByte(url, '/'); i >= 0 {
+		url = url[i+1:]
+	}
+	return r.FindMessageByName(protoreflect.FullName(url))
+}
+
+func (dynResolver) FindExtensionByName(protoreflect.FullName) (protoreflect.ExtensionType, error) {
+	return nil, protoregistry.NotFound
+}
+
+func (dynResolver) FindExtensionByNumber(protoreflect.FullName, protoreflect.FieldNumber) (protoreflect.ExtensionType, error) {
+	return nil, protoregistry.NotFound
+}
+
 func jsonSemantic(b []byte) (interface{}, error) {
 	var v interface{}
 	err := json.Unmarshal(b, &v)
@@ -165,6 +203,13 @@ func checkC10(ctx *Ctx, c *Case) error {
 	}
 	want := canonD(d.ProtoReflect())
 	p := model.BuildP(t, d.ProtoReflect())
+	if digest(c.Bytes, "flipbytes")%3 == 0 {
+		// the same value with every empty bytes value (oneof member, list element,
+		// map value) held the other way, nil <-> []byte{}: no algorithm may notice
+		if model.FlipEmptyBytes(p) > 0 {
+			ctx.Label("empty bytes held the other way")
+		}
+	}
 	switch c.Sub {
 	case "equal":
 		dw, err := decodeD(t, unhex(c.Bytes2))
@@ -230,6 +275,206 @@ func checkC10(ctx *Ctx, c *Case) error {
 		if got := canonI(p); got != refCanon {
 			return fmt.Errorf("destination shares memory with the Merge source: %s", diffStr(got, refCanon))
 		}
+	case "cross":
+		// generic algorithms across implementations: a generated message on one
+		// side, a dynamicpb message of the same descriptor on the other
+		dw, err := decodeD(t, unhex(c.Bytes2))
+		if err != nil {
+			return nil
+		}
+		pw := model.BuildP(t, dw.ProtoReflect())
+		ref := proto.Equal(d, dw)
+		for _, pair := range []struct {
+			name string
+			a, b proto.Message
+		}{{"Equal(generated V, dynamic W)", p, dw}, {"Equal(dynamic V, generated W)", d, pw}, {"Equal(dynamic W, generated V)", dw, p}} {
+			if got := proto.Equal(pair.a, pair.b); got != ref {
+				return fmt.Errorf("proto.%s = %v, on two dynamic messages %v (W is %s)", pair.name, got, ref, c.arg("w"))
+			}
+		}
+		refM := proto.Clone(d)
+		proto.Merge(refM, dw)
+		wantM := canonD(refM.ProtoReflect())
+		m1 := proto.Clone(d) // dynamic destination, generated source
+		proto.Merge(m1, pw)
+		if got := canonD(m1.ProtoReflect()); got != wantM {
+			return fmt.Errorf("proto.Merge(dynamic V, generated W) differs from Merge on two dynamic messages: %s", diffStr(got, wantM))
+		}
+		m2 := model.BuildP(t, d.ProtoReflect()) // generated destination, dynamic source
+		proto.Merge(m2, dw)
+		if got := canonI(m2); got != wantM {
+			return fmt.Errorf("proto.Merge(generated V, dynamic W) differs from Merge on two dynamic messages: %s", diffStr(got, wantM))
+		}
+		ctx.Label("cross-implementation equal/merge")
+	case "hybrid":
+		// a dynamicpb parent whose message-typed children (singular fields, list
+		// elements, map values) are GENERATED messages: dynamicpb accepts any
+		// protoreflect.Message of the right descriptor, and the generic codec and
+		// algorithms then drive the generated children through their reflection
+		h := t.NewD()
+		hm := h.ProtoReflect()
+		nGen := 0
+		child := func(fd protoreflect.FieldDescriptor, v protoreflect.Value) protoreflect.Value {
+			if ct := model.TypeByName(string(fd.Message().FullName())); ct != nil {
+				nGen++
+				return protoreflect.ValueOfMessage(model.BuildP(ct, v.Message()).ProtoReflect())
+			}
+			return protoreflect.ValueOfMessage(proto.Clone(v.Message().Interface()).ProtoReflect())
+		}
+		d.ProtoReflect().Range(func(fd protoreflect.FieldDescriptor, v protoreflect.Value) bool {
+			switch {
+			case fd.IsList() && fd.Message() != nil:
+				l := hm.Mutable(fd).List()
+				for i := 0; i < v.List().Len(); i++ {
+					l.Append(child(fd, v.List().Get(i)))
+				}
+			case fd.IsMap() && fd.MapValue().Message() != nil:
+				mp := hm.Mutable(fd).Map()
+				v.Map().Range(func(k protoreflect.MapKey, mv protoreflect.Value) bool {
+					mp.Set(k, child(fd.MapValue(), mv))
+					return true
+				})
+			case fd.Message() != nil && !fd.IsList() && !fd.IsMap():
+				hm.Set(fd, child(fd, v))
+			case fd.IsList():
+				l := hm.Mutable(fd).List()
+				for i := 0; i < v.List().Len(); i++ {
+					l.Append(v.List().Get(i))
+				}
+			case fd.IsMap():
+				mp := hm.Mutable(fd).Map()
+				v.Map().Range(func(k protoreflect.MapKey, mv protoreflect.Value) bool { mp.Set(k, mv); return true })
+			default:
+				hm.Set(fd, v)
+			}
+			return true
+		})
+		hm.SetUnknown(d.ProtoReflect().GetUnknown())
+		if nGen == 0 {
+			ctx.Label("trivial: no generated child")
+			return nil
+		}
+		refB, err := det.Marshal(d)
+		if err != nil {
+			return nil
+		}
+		gotB, err := det.Marshal(h)
+		if err != nil {
+			return fmt.Errorf("Marshal of a dynamic message holding generated children failed: %v", err)
+		}
+		if !bytes.Equal(gotB, refB) {
+			return fmt.Errorf("deterministic bytes of a dynamic message holding generated children differ from the all-dynamic message: %s", diffStr(hexs(gotB), hexs(refB)))
+		}
+		if proto.Size(h) != proto.Size(d) {
+			return fmt.Errorf("Size of a dynamic message holding generated children = %d, all-dynamic %d", proto.Size(h), proto.Size(d))
+		}
+		if !proto.Equal(h, d) || !proto.Equal(d, h) {
+			return fmt.Errorf("a dynamic message holding generated children is not proto.Equal to the all-dynamic message of the same value")
+		}
+		if got := canonD(proto.Clone(h).ProtoReflect()); got != want {
+			return fmt.Errorf("Clone of a dynamic message holding generated children differs: %s", diffStr(got, want))
+		}
+		ctx.Label("hybrid dynamic parent / generated children")
+	case "walk":
+		// protorange visits the same paths with the same values on both implementations
+		walk := func(m proto.Message, view model.Viewer) (string, error) {
+			var sb strings.Builder
+			n := 0
+			err := protorange.Options{Stable: true}.Range(m.ProtoReflect(), func(pv protopath.Values) error {
+				n++
+				last := pv.Index(-1)
+				sb.WriteString(pv.Path.String())
+				if last.Step.Kind() == protopath.FieldAccessStep || last.Step.Kind() == protopath.ListIndexStep || last.Step.Kind() == protopath.MapIndexStep {
+					var fd protoreflect.FieldDescriptor
+					switch last.Step.Kind() {
+					case protopath.FieldAccessStep:
+						fd = last.Step.FieldDescriptor()
+					default:
+						fd = pv.Index(-2).Step.FieldDescriptor()
+					}
+					if fd != nil && fd.Message() == nil && !fd.IsList() && !fd.IsMap() {
+						sb.WriteString("=" + model.CanonValue(fd, last.Value))
+					} else if fd != nil && fd.Message() == nil && last.Step.Kind() == protopath.ListIndexStep {
+						sb.WriteString("=" + model.CanonValue(fd, last.Value))
+					} else if fd != nil && fd.IsMap() && last.Step.Kind() == protopath.MapIndexStep && fd.MapValue().Message() == nil {
+						sb.WriteString("=" + model.CanonValue(fd.MapValue(), last.Value))
+					}
+				}
+				sb.WriteString(";")
+				return nil
+			}, nil)
+			return fmt.Sprintf("%d:%s", n, sb.String()), err
+		}
+		wp, e1 := walk(p, model.Same)
+		wd, e2 := walk(d, model.Same)
+		if e1 != nil || e2 != nil {
+			return fmt.Errorf("protorange failed: generated %v, dynamic %v", e1, e2)
+		}
+		if wp != wd {
+			return fmt.Errorf("protorange visits differ between the generated and the dynamic message: %s", diffStr(wp, wd))
+		}
+		ctx.Label("protorange walk compared")
+	case "jsonany":
+		// V packed into an Any: protojson and prototext expand it through the type
+		// resolver; with the global registry that is the generated type, with
+		// dynResolver a dynamicpb type of the same descriptor
+		vb, err := det.Marshal(d)
+		if err != nil {
+			return nil
+		}
+		a := &anypb.Any{TypeUrl: "type.googleapis.com/" + string(t.Name), Value: vb}
+		gotJ, e1 := protojson.MarshalOptions{}.Marshal(a)
+		refJ, e2 := protojson.MarshalOptions{Resolver: dynResolver{}}.Marshal(a)
+		if (e1 == nil) != (e2 == nil) {
+			return fmt.Errorf("protojson.Marshal of an Any holding V: generated type %v, dynamic type %v", e1, e2)
+		}
+		if e1 == nil {
+			g, ge := jsonSemantic(gotJ)
+			r, re := jsonSemantic(refJ)
+			if ge != nil || re != nil || !reflect.DeepEqual(g, r) {
+				return fmt.Errorf("protojson of an Any holding V differs between the generated and the dynamic type:\n generated %s\n reference %s", trunc(string(gotJ), 600), trunc(string(refJ), 600))
+			}
+			back := &anypb.Any{}
+			if err := protojson.Unmarshal(refJ, back); err != nil {
+				return fmt.Errorf("protojson.Unmarshal of an Any holding V (resolved to the generated type) failed: %v", err)
+			}
+			back2 := &anypb.Any{}
+			if err := (protojson.UnmarshalOptions{Resolver: dynResolver{}}).Unmarshal(refJ, back2); err != nil {
+				return nil // the reference cannot parse its own output: nothing to compare with
+			}
+			// JSON cannot carry everything (NaN payloads): the yardstick is what the
+			// same text gives through the dynamic type
+			q, q2 := t.NewD(), t.NewD()
+			if err := proto.Unmarshal(back.Value, q); err != nil {
+				return fmt.Errorf("an Any parsed from JSON through the generated type holds a value that does not decode: %v", err)
+			}
+			if err := proto.Unmarshal(back2.Value, q2); err != nil {
+				return nil
+			}
+			if a, b := canonD(q.ProtoReflect()), canonD(q2.ProtoReflect()); a != b {
+				return fmt.Errorf("an Any holding V parsed from JSON through the generated type differs from the same text parsed through the dynamic type: %s", diffStr(a, b))
+			}
+		}
+		gotT, e3 := prototext.MarshalOptions{}.Marshal(a)
+		refT, e4 := prototext.MarshalOptions{Resolver: dynResolver{}}.Marshal(a)
+		if (e3 == nil) != (e4 == nil) {
+			return fmt.Errorf("prototext.Marshal of an Any holding V: generated type %v, dynamic type %v", e3, e4)
+		}
+		if e3 == nil {
+			b1, b2 := &anypb.Any{}, &anypb.Any{}
+			u1 := prototext.UnmarshalOptions{Resolver: dynResolver{}}.Unmarshal(gotT, b1)
+			u2 := prototext.UnmarshalOptions{Resolver: dynResolver{}}.Unmarshal(refT, b2)
+			if (u1 == nil) != (u2 == nil) {
+				return fmt.Errorf("text of an Any holding V, written through the generated type, parses differently: %v vs %v\n %s", u1, u2, trunc(string(gotT), 400))
+			}
+			if u1 == nil {
+				d1, d2 := t.NewD(), t.NewD()
+				if proto.Unmarshal(b1.Value, d1) != nil || proto.Unmarshal(b2.Value, d2) != nil || canonD(d1.ProtoReflect()) != canonD(d2.ProtoReflect()) {
+					return fmt.Errorf("text of an Any holding V differs between the generated and the dynamic type: %s", diffStr(canonD(d1.ProtoReflect()), canonD(d2.ProtoReflect())))
+				}
+			}
+		}
+		ctx.Label("any expansion compared")
 	case "sharereset":
 		// b receives a's lists by Set (what generic code such as Merge-like
 		// copiers does), then a is reset (proto.Reset, or implicitly by a JSON
